@@ -489,3 +489,22 @@ c = S.ext("threading.Lock", cite="threading.Lock(): a new lock")
 c.returns(T.Ref("threading.Lock"), fresh=True).modifies()
 c = S.ext("threading.RLock", cite="threading.RLock(): a new lock")
 c.returns(T.Ref("threading.RLock"), fresh=True).modifies()
+
+
+@_impl("threading.Thread.join", cite="Thread.join(): blocks until the thread ends")
+def _tjoin(eng, st, self_v, args, kwargs, node):
+    st.emit("thread_join", [self_v], eng.site(node))
+    return [eng.val(st, NONE)]
+
+
+@_impl("WeakKeyDict.pop", cite="WeakKeyDictionary.pop(key, default)")
+def _wkd_pop(eng, st, self_v, args, kwargs, node):
+    from pyvc.values import VObj, fresh_const
+    st.emit("wkd_pop", [self_v] + list(args), eng.site(node))
+    return [eng.val(st, VObj(fresh_const("wkd", T.IntS)))]
+
+
+@_impl("WeakKeyDict.__setitem__", cite="WeakKeyDictionary[key] = value")
+def _wkd_set(eng, st, self_v, args, kwargs, node):
+    st.emit("wkd_set", [self_v] + list(args), eng.site(node))
+    return [eng.val(st, NONE)]
